@@ -236,10 +236,11 @@ theorem callable_np (tok : String → α) : (callableHooks tok).NP := by
 
 /-! ### the C15 probe -/
 
-theorem probe_ret_returns (failing : Bool) (tag : String) : (Probe.ret failing tag).Returns := by
-  unfold Probe.ret; returns_auto
+theorem probe_ret_returns (failing : Nat) (tag : String) : (Probe.ret failing tag).Returns := by
+  unfold Probe.ret
+  split <;> first | exact Outcome.returns_ok _ | exact Outcome.returns_err _
 
-theorem probe_np (mask : Nat) (failing : Bool) : (Probe.hooks mask failing).NP := by
+theorem probe_np (mask : Nat) (failing : Nat) : (Probe.hooks mask failing).NP := by
   constructor <;> intro f hf <;> simp [Probe.hooks] at hf
   all_goals (obtain ⟨_, hf⟩ := hf; subst hf)
   · exact probe_ret_returns _ _
